@@ -553,10 +553,10 @@ func c32GenCase(r *vu.RNG) string {
 			default:
 				tip := r.Range(1, len(g.number)-1)
 				fields := uint64(0x13)
-				switch r.Intn(16) {
+				switch r.Intn(48) { // 1 and 0x11 lack the body bit: outside the theorem's precondition
 				case 0:
 					fields = 1
-				case 1:
+				case 1, 3, 4:
 					fields = 3
 				case 2:
 					fields = 0x11
@@ -628,13 +628,121 @@ func c32Exhaustive(maxLen int, emit func(string)) {
 	}
 }
 
+// c32GenBatch: one bodies-only response completes several (3..7) announced blocks that are listed
+// in an order that is NOT sorted by number.  Two chain segments are announced: S2 = the next blocks
+// of the main chain above the known prefix, S1 = blocks of a fork (or of a lower part of a second
+// branch) with lower numbers.  Listed as  S2[0], S1..., S2[1:]  every completed block lands in its
+// own single-block fragment; sorting puts S1 first, merging appends S2[1] to the fragment of S2[0]
+// (a slice that shares its backing array with the other single-block fragments unless each was
+// allocated separately).  Half of the cases shuffle the list, a few send the bodies in two
+// responses of one Process call or add a header response for the gap.
+func c32GenBatch(r *vu.RNG) string {
+	g := &c32Gen{r: r, parent: []int{-1}, number: []uint64{0}}
+	m := r.Range(4, 10) // main chain 1..m
+	for i := 0; i < m; i++ {
+		g.addHeader(uint64(i), uint64(i)+1, i)
+	}
+	f := r.Range(0, m-3) // the fork leaves the main chain after block f
+	flen := r.Range(2, 3)
+	forkIDs := []int{}
+	p := f
+	for i := 0; i < flen; i++ {
+		id := g.addHeader(uint64(p), g.number[p]+1, p)
+		forkIDs = append(forkIDs, id)
+		p = id
+	}
+	g.genuine = len(g.number) - 1
+	// known prefix of the main chain: up to k, where the fork's numbers (f+1..f+flen) lie at or
+	// below k in most cases so that S1 sorts before S2
+	k := r.Range(f, m-2)
+	if r.Chance(3, 4) && f+flen <= m-2 {
+		k = r.Range(f+flen, m-2)
+	}
+	var steps []string
+	for i := 1; i <= k; i++ {
+		steps = append(steps, fmt.Sprintf("K%x", i))
+	}
+	if r.Chance(1, 10) { // only the main chain up to the fork point is known: S2 is disconnected too
+		steps = steps[:f]
+		k = f
+	}
+	want := r.Range(2, 4)
+	s2 := []int{}
+	for i := k + 1; i <= m && len(s2) < want; i++ {
+		s2 = append(s2, i)
+	}
+	s1 := forkIDs
+	if r.Chance(1, 4) {
+		s1 = forkIDs[:len(forkIDs)-1]
+	}
+	order := append([]int{s2[0]}, s1...)
+	order = append(order, s2[1:]...)
+	if r.Chance(1, 2) {
+		for i := len(order) - 1; i > 0; i-- {
+			j := r.Intn(i + 1)
+			order[i], order[j] = order[j], order[i]
+		}
+	}
+	ann := append([]int{}, order...)
+	if r.Chance(1, 2) {
+		for i := len(ann) - 1; i > 0; i-- {
+			j := r.Intn(i + 1)
+			ann[i], ann[j] = ann[j], ann[i]
+		}
+	}
+	for _, id := range ann {
+		steps = append(steps, fmt.Sprintf("A%x", id))
+	}
+	body := func(ids []int) string {
+		var bl []string
+		for _, id := range ids {
+			fl := 1
+			if r.Chance(1, 16) {
+				fl = 3
+			}
+			bl = append(bl, fmt.Sprintf("%x/-/%x", id, fl))
+		}
+		fields := 0x12
+		if r.Chance(1, 8) {
+			fields = 2
+		}
+		return fmt.Sprintf("%x:1:%x:0:%s", r.Intn(3), fields, strings.Join(bl, ","))
+	}
+	var results []string
+	switch r.Intn(8) {
+	case 0: // two responses in one call
+		cut := r.Range(1, len(order)-1)
+		results = []string{body(order[:cut]), body(order[cut:])}
+	case 1: // plus a header response for some main-chain blocks
+		results = []string{body(order), g.result(g.chainTo(r.Range(1, m), r.Range(1, 4)), 0x13, 0)}
+		if r.Chance(1, 2) {
+			results[0], results[1] = results[1], results[0]
+		}
+	default:
+		results = []string{body(order)}
+	}
+	steps = append(steps, "P"+strings.Join(results, "+"))
+	if r.Chance(1, 3) { // a later call delivers the rest of the main chain with headers
+		steps = append(steps, "P"+g.result(g.chainTo(m, r.Range(1, m)), 0x13, 0))
+	}
+	return strings.Join(g.hdrs, ";") + " - " + strings.Join(steps, "|")
+}
+
 func c32GenAll(r *vu.RNG, n int, emit func(string)) {
+	// vu.NewRNG(seed) starts seed k+1 one draw behind seed k on the same splitmix64 sequence, so
+	// generators of consecutive seeds fall into step after a few cases; a forked generator
+	// (state = a mixed output) gives unrelated sequences for different seeds
+	r = r.Fork()
 	if vu.Thorough() {
 		c32Exhaustive(6, emit)
 	} else {
 		c32Exhaustive(4, emit)
 	}
 	for i := 0; i < n; i++ {
+		if i%8 == 3 {
+			emit(c32GenBatch(r))
+			continue
+		}
 		emit(c32GenCase(r))
 	}
 	// the environment model against the real blockImporter (harness_importer_test.go)
